@@ -30,10 +30,10 @@ type LoopSpec struct {
 
 type ModItem struct {
 	Fresh bool // heap named, but only objects allocated during the call are written
-	Src  string
-	Expr Expr   // object-level: x.f / x.* / x[*]
-	Heap string // heap-level: exact heap name or prefix with trailing '*'
-	All  bool
+	Src   string
+	Expr  Expr   // object-level: x.f / x.* / x[*]
+	Heap  string // heap-level: exact heap name or prefix with trailing '*'
+	All   bool
 }
 
 type Contract struct {
@@ -56,37 +56,38 @@ type Contract struct {
 	Replay     string
 	Uses       []*Clause // lemma instances assumed at entry: name(args)
 	Nilable    bool      // the receiver may be nil (no non-nil assumption at entry)
+	TypedHeap  bool      // state well-typedness of unconstrained heap versions as axioms (needed for heap reads in specs)
 	File       string
 	Line       int
 	used       bool
 }
 
 type SpecFn struct {
-	Name    string
-	Pkg     string
-	Params  []QVar
-	Result  string
-	Body    Expr
-	Src     string
-	Rec     bool
+	Name     string
+	Pkg      string
+	Params   []QVar
+	Result   string
+	Body     Expr
+	Src      string
+	Rec      bool
 	Uninterp bool
-	Reads   []string // heap names read (filled on first translation)
-	File    string
-	Line    int
-	Trigger string
+	Reads    []string // heap names read (filled on first translation)
+	File     string
+	Line     int
+	Trigger  string
 }
 
 type Lemma struct {
 	Params    []QVar
 	Induction string
-	Name  string
-	Pkg   string
-	Props []string
-	Expr  Expr
-	Src   string
-	Axiom bool
-	File  string
-	Line  int
+	Name      string
+	Pkg       string
+	Props     []string
+	Expr      Expr
+	Src       string
+	Axiom     bool
+	File      string
+	Line      int
 }
 
 type GhostField struct {
@@ -109,7 +110,7 @@ type ContractSet struct {
 var clauseKeywords = map[string]bool{
 	"func": true, "spec": true, "extern": true, "iface": true, "closure": true, "requires": true, "ensures": true,
 	"loop": true, "modifies": true, "inline": true, "noinline": true, "trusted": true, "pure": true, "lemma": true,
-	"axiom": true, "ghost": true, "type": true, "opaque": true, "noreturn": true, "replay": true, "recspec": true, "uspec": true, "uses": true, "nilable": true,
+	"axiom": true, "ghost": true, "type": true, "opaque": true, "noreturn": true, "replay": true, "recspec": true, "uspec": true, "uses": true, "nilable": true, "typedheap": true,
 }
 
 var propsRe = regexp.MustCompile(`^\[((?:C[0-9]+)(?:\s*,\s*C[0-9]+)*)\]\s*`)
@@ -344,6 +345,10 @@ func (cs *ContractSet) LoadFile(path, pkgPath string) {
 		case "nilable":
 			if cur != nil {
 				cur.Nilable = true
+			}
+		case "typedheap":
+			if cur != nil {
+				cur.TypedHeap = true
 			}
 		case "inline":
 			if cur != nil {
